@@ -106,7 +106,7 @@ class Program:
         self.exe = exe
         return True
 
-    def run(self, commands, mode='stepped', timeout=120, env=None):
+    def run(self, commands, mode='stepped', timeout=300, env=None):
         """Feed commands, return the list of JSON replies (one per command)."""
         text = '\n'.join(commands + ['quit']) + '\n'
         penv = dict(os.environ)
